@@ -336,7 +336,7 @@ def complete (h : Hints) (s : State) (tid : Nat) (r : Resp) (byWorker : Bool) : 
   if t.response.isSome then return s            -- COMPLETED: nothing to do
   -- QUEUED: assigned to a temporary worker (dequeues all operations, reports a
   -- non-final stage change); EXECUTING: detach from the real worker.
-  let t := if t.worker.isNone then bumpGen { t with queued := false } else t
+  let t := if t.worker.isNone then bumpGen { t with queued := false, retry := 0 } else t
   let s := match t.worker with
     | some (q, w) => match s.worker? q w with
       | some wk => s.setWorker { wk with task := none }
